@@ -25,6 +25,7 @@ from .lie import Fn, mat_pairs, vec_pairs, tangent_sampler, subst_fn, series_pai
 
 PROP = "C02"
 TOL = Fraction(1, 10 ** 9)
+TOL_F = Fraction(1, 10 ** 3)      # single precision (the property's tolerance for float)
 
 
 def group_tasks(tier):
@@ -90,16 +91,20 @@ def run_group(gname, s, tier="quick", seed=0, canary=False):
     def do_taylor():
         if not G.rot:
             return
-        pt = fe.paths("taylor")
-        env = G.sample_tangent(rng, "a", rotnorm=1e-3)
-        pc = pick_path(fe.paths("closed"), env)
+        pt = fe.paths(("taylor", "mixed"))
+        pc = None
+        for rn_ in (0.3, 1e-3, 1.5):
+            env = G.sample_tangent(rng, "a", rotnorm=rn_)
+            pc = pick_path(fe.paths("closed"), env)
+            if pc is not None:
+                break
         if not pt:
             return
         if pc is None:
             res.add("%s::exp/taylor" % tag, "error", "infra", 0.0, "taylor/closed path not identified (%r)" % fe.count())
             return
         for k, p in enumerate(pt):
-            series_pairs(res, "%s::exp/taylor/p%d" % (tag, k), mat_pairs(G.M(p.out("o")), G.M(pc.out("o"))), G, TOL,
+            series_pairs(res, "%s::exp/taylor/p%d" % (tag, k), mat_pairs(G.M(p.out("o")), G.M(pc.out("o"))), G, (TOL if s == "d" else TOL_F),
                          call=fe.call(), pv=p)
             if canary and k == 0:
                 series_pairs(res, "%s::exp/taylor-canary/p%d" % (tag, k), vec_pairs(p.out("o"), pc.out("o")), G,
@@ -169,36 +174,41 @@ def run_group(gname, s, tier="quick", seed=0, canary=False):
     def do_log_taylor():
         if not G.rot:
             return
-        pt = fl.paths("taylor", hyp=hyp_g)
+        pt = fl.paths(("taylor", "mixed"), hyp=hyp_g)
         env = None
-        # a unit element with small vector part (1e-3): which closed path continues there?
-        e = G.sample_group(rng, "g")
+        # a unit element with small vector part: which closed path continues there?  (vector part 0.15 ~ angle 0.3 lies above every
+        # series switch of detail/trig.hpp; 1e-3 is the fallback for functions with the plain eps2 switch only)
         import math
-        for grp in G.unit:
-            if len(grp) == 4:
-                u = [rng.gauss(0, 1) for _ in range(3)]
-                n = math.sqrt(sum(x * x for x in u))
-                for k in range(3):
-                    e["g%d" % grp[k]] = u[k] / n * 1e-3
-                e["g%d" % grp[3]] = math.sqrt(1 - 1e-6)
-            else:
-                e["g%d" % grp[0]] = 1e-3
-                e["g%d" % grp[1]] = math.sqrt(1 - 1e-6)
-        pc = pick_path(fl.paths("closed", hyp=hyp_g), e)
+        pc = None
+        for vp_ in (0.15, 0.68, 1e-3):
+            e = G.sample_group(rng, "g")
+            for grp in G.unit:
+                if len(grp) == 4:
+                    u = [rng.gauss(0, 1) for _ in range(3)]
+                    n = math.sqrt(sum(x * x for x in u))
+                    for k in range(3):
+                        e["g%d" % grp[k]] = u[k] / n * vp_
+                    e["g%d" % grp[3]] = math.sqrt(1 - vp_ * vp_)
+                else:
+                    e["g%d" % grp[0]] = vp_
+                    e["g%d" % grp[1]] = math.sqrt(1 - vp_ * vp_)
+            pc = pick_path(fl.paths("closed", hyp=hyp_g), e)
+            if pc is not None:
+                break
         if not pt:
             return      # no small-angle switch in log (e.g. SO2: a single atan2)
         if pc is None:
             res.add("%s::log/taylor" % tag, "error", "infra", 0.0, "closed path not identified (%r)" % fl.count())
             return
         for k, p in enumerate(pt):
-            series_pairs(res, "%s::log/taylor/p%d" % (tag, k), vec_pairs(p.out("t"), pc.out("t")), G, TOL,
+            series_pairs(res, "%s::log/taylor/p%d" % (tag, k), vec_pairs(p.out("t"), pc.out("t")), G, (TOL if s == "d" else TOL_F),
                          group_input=True, prefix="g", call=fl.call(), pv=p)
     guarded(res, tag + "::log/taylor", do_log_taylor)
     def do_standin():
         btol = Fraction(1, 10 ** 9) if s == "d" else Fraction(1, 1000)
         rounding_standin(res, "%s::exp" % tag, fe, G, btol, "o", tier, seed, tscales=(1.0, 1e3))
     guarded(res, tag + "::standin", do_standin)
-    edge = [v for f in (fe, fl) for v in f.views if v.status == "ok" and v.cls in ("edge", "mixed")]
+    edge = [v for f in (fe, fl) for v in f.views if v.status == "ok" and v.cls in ("edge",)]
     if edge:
         res.unverified.append("%s: %d path(s) on which |a_rot|^2 equals the switch constant exactly (measure zero; bounded stand-in only)" % (G.name, len(edge)))
     return res
